@@ -1,0 +1,80 @@
+//! Verification hooks (only compiled with cargo feature `verif`)
+//!
+//! Nothing in here changes behaviour unless a test harness installs a mock
+//! clock or a probe handler.
+
+use std::cell::Cell;
+use std::sync::atomic::{AtomicBool, AtomicU64, Ordering};
+use std::sync::{Arc, RwLock};
+
+const UNSET: u64 = u64::MAX;
+
+thread_local! {
+    static THREAD_MOCK_SECONDS: Cell<Option<u32>> = const { Cell::new(None) };
+}
+
+static GLOBAL_MOCK_SECONDS: AtomicU64 = AtomicU64::new(UNSET);
+
+/// Set mock value returned by `ServerStartInstant::seconds_elapsed` on the
+/// calling thread only
+pub fn set_mock_seconds(seconds: Option<u32>) {
+    THREAD_MOCK_SECONDS.with(|c| c.set(seconds));
+}
+
+/// Set mock value returned by `ServerStartInstant::seconds_elapsed` on all
+/// threads that don't have a thread-local mock value
+pub fn set_global_mock_seconds(seconds: Option<u32>) {
+    GLOBAL_MOCK_SECONDS.store(seconds.map(u64::from).unwrap_or(UNSET), Ordering::SeqCst);
+}
+
+pub fn mock_seconds() -> Option<u32> {
+    if let Some(seconds) = THREAD_MOCK_SECONDS.with(|c| c.get()) {
+        return Some(seconds);
+    }
+
+    match GLOBAL_MOCK_SECONDS.load(Ordering::SeqCst) {
+        UNSET => None,
+        seconds => Some(seconds as u32),
+    }
+}
+
+#[derive(Clone, Copy, Debug, PartialEq, Eq)]
+pub enum ProbeAction {
+    Continue,
+    /// Ask the code containing the probe to return (only honoured in worker
+    /// loop probes)
+    Return,
+}
+
+pub type ProbeHandler = Arc<dyn Fn(&'static str, u64) -> ProbeAction + Send + Sync>;
+
+static PROBE_HANDLER_SET: AtomicBool = AtomicBool::new(false);
+static PROBE_HANDLER: RwLock<Option<ProbeHandler>> = RwLock::new(None);
+
+/// Install or remove process-wide probe handler. Handler may block, panic or
+/// abort the process.
+pub fn set_probe_handler(handler: Option<ProbeHandler>) {
+    let mut guard = PROBE_HANDLER.write().unwrap_or_else(|e| e.into_inner());
+
+    PROBE_HANDLER_SET.store(handler.is_some(), Ordering::SeqCst);
+
+    *guard = handler;
+}
+
+/// No-op returning `ProbeAction::Continue` unless a handler is installed
+#[inline]
+pub fn probe(name: &'static str, context: u64) -> ProbeAction {
+    if !PROBE_HANDLER_SET.load(Ordering::Relaxed) {
+        return ProbeAction::Continue;
+    }
+
+    let opt_handler = PROBE_HANDLER
+        .read()
+        .unwrap_or_else(|e| e.into_inner())
+        .clone();
+
+    match opt_handler {
+        Some(handler) => handler(name, context),
+        None => ProbeAction::Continue,
+    }
+}
